@@ -678,6 +678,28 @@ func siC04Kinds(r *siReport) {
 	x := &ZInner{9, "x"}
 	check("kinds/ptr-to-first-element-then-slice", &ZK1{P: &s[0], S: s, Q: x, R: x}, func(o interface{}) *ZInner { return o.(*ZK1).Q }, func(o interface{}) *ZInner { return o.(*ZK1).R })
 	check("kinds/slice-then-ptr-to-first-element", &ZK2{S: s, P: &s[0], Q: x, R: x}, func(o interface{}) *ZInner { return o.(*ZK2).Q }, func(o interface{}) *ZInner { return o.(*ZK2).R })
+	// a list longer than the decoder's first allocation that contains its owner: the cycle survives the list's growth
+	for _, n := range []int{8, 1024, 1025, 3000} {
+		root := &ZS{ID: 1}
+		kids := make([]*ZS, n)
+		for i := range kids {
+			kids[i] = &ZS{ID: int32(i + 2)}
+		}
+		kids[3].L = kids
+		root.L = kids
+		cn := fmt.Sprintf("kinds/big-list-containing-itself/n=%d", n)
+		out, err := siRoundTrip(root)
+		if err != nil {
+			r.fail(cn, err.Error())
+			continue
+		}
+		g, ok := out.(*ZS)
+		if !ok || len(g.L) != n || len(g.L[3].L) != n || &g.L[3].L[0] != &g.L[0] || g.L[3].L[n-1] != g.L[n-1] {
+			r.fail(cn, "the list inside its own element is not the list itself")
+			continue
+		}
+		r.ok(cn)
+	}
 	// slices that start at one address with different lengths are different lists
 	{
 		base := []int32{1, 2, 3}
@@ -1645,6 +1667,13 @@ type ZEmbNamed struct {
 	X int32
 }
 
+type ZOwnNamedEmb struct {
+	ZNamed
+	Y int32
+}
+
+func (ZOwnNamedEmb) HessianCodecName() string { return "com.zoo.OwnNamedEmb" }
+
 type ZNestList []ZNestList
 type ZNestMap map[string]ZNestMap
 type ZSelfPtr *ZSelfPtr
@@ -1729,6 +1758,15 @@ func siC16(r *siReport) {
 			r.fail("pointer-receiver-name/"+name, fmt.Sprintf("name map gives %q", nm["ZPtrNamed"]))
 		} else {
 			r.ok("pointer-receiver-name/" + name)
+		}
+	}
+	// a struct with its own custom name that embeds a custom-named struct keeps its own name
+	{
+		_, nm := ExtractTypeNameMap(&ZOwnNamedEmb{})
+		if nm["ZOwnNamedEmb"] != "com.zoo.OwnNamedEmb" || nm["ZNamed"] == "com.zoo.OwnNamedEmb" {
+			r.fail("own-name-with-named-embedded", fmt.Sprintf("name map gives %q / %q", nm["ZOwnNamedEmb"], nm["ZNamed"]))
+		} else {
+			r.ok("own-name-with-named-embedded")
 		}
 	}
 	// named list, map and pointer types that contain themselves (no struct in between)
